@@ -176,8 +176,8 @@ class Vec:
 class NRows:
     """len() of a table: an unknown positive integer (n = number of row classes represented)"""
 
-    def __init__(self, n):
-        self.n = n
+    def __init__(self, n, pop=None):
+        self.n, self.pop = n, pop
 
     def __repr__(self):
         return "N"
@@ -211,11 +211,12 @@ class FStr:
 
 
 class DF:
-    def __init__(self, cols, n, index="range"):
+    def __init__(self, cols, n, index="range", pop=None):
         self.cols, self.n, self.index = dict(cols), n, index
+        self.pop = pop if pop is not None else object()      # identity of the row population (for len() comparisons)
 
     def copy(self):
-        return DF({k: Vec(v.v) if isinstance(v, Vec) else v for k, v in self.cols.items()}, self.n, self.index)
+        return DF({k: Vec(v.v) if isinstance(v, Vec) else v for k, v in self.cols.items()}, self.n, self.index, self.pop)
 
     def __repr__(self):
         return f"DF{list(self.cols)}"
@@ -445,6 +446,8 @@ def simplify(t):
 
 
 def t_div(a, b):
+    if b.is_const() and b.cval() == 0:
+        return Opaque("division-by-zero")
     return simplify(_t_div(a, b))
 
 
